@@ -292,7 +292,7 @@ def run(chk, replay=None):
     r = run_tlc("Reim4", "Reim4.cfg", workers=1, name="c17-reim4")
     tlc_must_pass(r, "Reim4 definitions")
     chk.add_tlc(r, "layout maps vs definitions, round trips, convolution window (ASSUMEs, m in {4,8,16})")
-    r = run_tlc("Pointwise", "Pointwise_quick.cfg", workers=8, coverage=True, name="c17-pw")
+    r = run_tlc("Pointwise", ("Pointwise_quick.cfg" if quick else "Pointwise_thorough.cfg"), workers=8, coverage=True, name="c17-pw")
     tlc_must_pass(r, "Pointwise")
     chk.add_tlc(r, "pointwise kernels = definition")
     r = run_tlc("Reim4Gen", "Reim4Gen.cfg", workers=1, name="c17-gen")
